@@ -9,8 +9,18 @@ extern "C" {
 
 namespace al {
 
-static inline void apply_opts(assemblyline_t a, const spec::Opts &o) {
-  asm_mov_imm(a, (enum asm_opt)o.mov);            // 0 STRICT, 1 NASM, 2 SMART coincide with enum asm_opt
+// 0 STRICT, 1 NASM, 2 SMART coincide with enum asm_opt.  `path` selects one of several documented, equivalent ways of
+// reaching the same option state (C12 decides that they are equivalent; using them everywhere makes every other check
+// sensitive to state left behind by a setter).
+static inline void apply_opts(assemblyline_t a, const spec::Opts &o, unsigned path = 0) {
+  switch (path % 4) {
+    case 0: break;
+    case 1: asm_set_all(a, (enum asm_opt)((o.mov + 1) % 3)); asm_set_all(a, (enum asm_opt)o.mov); break;        // through the other modes first
+    case 2: asm_mov_imm(a, (enum asm_opt)((o.mov + 2) % 3)); asm_sib(a, (enum asm_opt)(1 - o.swap)); asm_set_all(a, (enum asm_opt)o.mov); break;
+    case 3: asm_mov_imm(a, NASM); asm_mov_imm(a, STRICT); asm_sib(a, (enum asm_opt)o.nobase); asm_mov_imm(a, (enum asm_opt)7); break;
+  }
+  if (path % 4 == 1 || path % 4 == 2) { /* asm_set_all is the last call that touched the mov dimension */ }
+  else asm_mov_imm(a, (enum asm_opt)o.mov);
   asm_sib_index_base_swap(a, (enum asm_opt)o.swap);
   asm_sib_no_base(a, (enum asm_opt)o.nobase);
 }
@@ -28,7 +38,7 @@ static inline Result assemble(const std::string &text, int combo, int n = 256, i
   std::unique_ptr<uint8_t[]> buf(new uint8_t[n]);
   memset(buf.get(), fill, n);
   assemblyline_t a = asm_create_instance(buf.get(), n);
-  apply_opts(a, spec::combo_opts(combo));
+  { unsigned h = 2166136261u; for (unsigned char ch : text) h = (h ^ ch) * 16777619u; apply_opts(a, spec::combo_opts(combo), h >> 7); }
   asm_set_offset(a, start);
   r.off_before = start;
   r.rc = asm_assemble_str(a, text.c_str());
